@@ -44,3 +44,14 @@ def jobs(tier):
             functions=["parsec_dependencies_mark_task_as_startup"], timeout=300, min_obligations=2),
     ]
     return J
+
+MANIFEST = dict(
+    category="proof",
+    text="Every obligation of the rely/guarantee contracts of parsec_update_deps_with_mask / _with_counter / mark_task_as_startup is "
+         "discharged by CBMC for all 32-bit dependency words, goals, flow indexes and release counts under arbitrary interference "
+         "permitted by the rely (loop-free code: complete). The helper check_IN_* contracts are discharged for bounded task-class "
+         "shapes in the quick tier (reported separately as bounded, not counted as proved) and for the code's full limits in the thorough tier.",
+    note="Assumes rely/guarantee soundness and sequentially consistent atomics; assumes each flow is released once and exactly goal "
+         "releases happen (generated code, C02); guards stubbed as constants; counter-mode gather widths bounded (<=7 quick, <=255 thorough).",
+    technique="function contracts + rely/guarantee ghost state on the real parsec.c, discharged by CBMC (SAT), callee replaced by contract via goto-instrument --dfcc",
+    design_ref="DESIGN.md section 5, C07")
